@@ -20,8 +20,8 @@ CF = "cubed.array_api.creation_functions"
 
 
 class CreationSpec(ArrayOpSpec):
-    props = ("C01", "C12", "C17")
-    quick_props = ("C12", "C01")
+    props = ("C01", "C12", "C17", "C03")
+    quick_props = ("C12", "C01", "C03")
 
 
 @register
